@@ -11,6 +11,7 @@ import (
 	"go.lstv.dev/util/internal/vsim/core"
 	"go.lstv.dev/util/internal/vsim/sched"
 	"go.lstv.dev/util/internal/vsim/vatomic"
+	"go.lstv.dev/util/internal/vsim/vcrand"
 	"go.lstv.dev/util/internal/vsim/vrace"
 	"go.lstv.dev/util/internal/vsim/vrand"
 	"go.lstv.dev/util/internal/vsim/vtime"
@@ -81,6 +82,8 @@ func (Prop) Prelude(o core.RunOpts) *core.Result {
 }
 
 var taskCounts = [...]int{1, 2, 2, 2, 3, 3, 4, 4, 8, 8, 16, 64}
+
+const maxControlCalls = 64
 
 // Run implements core.Property.
 var errCallback = fmt.Errorf("vsim: injected callback panic")
@@ -175,6 +178,7 @@ func (Prop) Run(t *core.Tape, o core.RunOpts) *core.Result {
 	sched.Procs = procs
 	res.Extra.Inc(fmt.Sprintf("reported_gomaxprocs_%02d", procs))
 	sched.ClearPending()
+	vcrand.ResetPlain()
 	resetPackages() // every run starts from the package's initial state
 	s := sched.New(t, sched.Config{Strategy: strategy, Clock: clock, MaxSteps: budget, Keep: o.KeepTrace, RareStall: rareStall})
 	s.Salt = salt
@@ -200,6 +204,7 @@ func (Prop) Run(t *core.Tape, o core.RunOpts) *core.Result {
 	total := 0
 	returned := 0
 	callbackPanicked := false
+	controlCalls := 0 // configuration and maintenance calls are rare events: at most maxControlCalls per run
 
 	// no garbage collection while a run is in progress: the address-based race hooks rely
 	// on no heap address being reused within a run
@@ -263,7 +268,8 @@ func (Prop) Run(t *core.Tape, o core.RunOpts) *core.Result {
 			// StartReseeding(every)): made by the callers, between their ID calls, while the others
 			// generate. What such a call does with an odd argument is its own business: a panic
 			// out of it is not held against the property.
-			if len(ExtraControls) > 0 && t.Bool(1, 6) {
+			if len(ExtraControls) > 0 && controlCalls < maxControlCalls && t.Bool(1, 6) {
+				controlCalls++
 				k := t.Choose(len(ExtraControls))
 				a := [...]int{1, 2, 3, 4, 0, 5, 8, 16}[t.Choose(8)]
 				res.Probes.Inc("extra_control_called")
@@ -316,7 +322,7 @@ func (Prop) Run(t *core.Tape, o core.RunOpts) *core.Result {
 					return
 				}
 				// I4 duplicates: only where every honest draw is distinct by construction
-				if entropy == vrand.EUniform && !vrand.SeedAliased {
+				if entropy == vrand.EUniform && !vrand.SeedsAliased() {
 					if prev, dup := seen[id]; dup {
 						s.Fail("I4-duplicate", "duplicate", fmt.Sprintf("t%d call %d returned %016x%016x, already returned by t%d earlier in this run (uniform entropy: every honest draw is distinct)", task, c, id.Higher, id.Lower, prev))
 						return
